@@ -69,7 +69,7 @@ FAMILIES["cow"] = {
 }
 
 FAMILIES["map"] = {
-    "anchor": "src/algorithm/map.rs probe loops (insert_impl, remove_impl, MapKeys::get, set_tombstones)",
+    "anchor": "src/algorithm/map.rs probe loops (insert_impl, remove_impl, MapKeys::get, set_tombstones) and row operations (MapKeys::{present_indices, reverse, rotate, drop, take})",
     "bound": "capacity 2 (quick) / 3 (thorough), scalar f64 keys; every cell any of {empty, tombstone, arbitrary f64}; one operation from an arbitrary well-formed table (single-step induction)",
     "header": "use crate::shim::*;\nuse std::cmp::Ordering;\nuse std::hash::{Hash, Hasher};\n",
     "rewrites": (PUBCRATE,),
@@ -95,6 +95,10 @@ FAMILIES["map"] = {
         {"wrap": "impl MapKeys", "items": [
             {"kind": "fn", "name": "MapKeys::get", "file": "src/algorithm/map.rs", "impl": r"^impl MapKeys \{", "fn": "get",
              "rewrites": (("R1", r"^fn get", "pub fn get", "visibility widened"),)},
+        ] + [
+            {"kind": "fn", "name": "MapKeys::" + f, "file": "src/algorithm/map.rs", "impl": r"^impl MapKeys \{", "fn": f,
+             "rewrites": (("R1", r"^fn ", "pub fn ", "visibility widened"), ("R4", r"(?m)^\s*#\[cfg\(feature = \"ga\"\)\]\n[^\n]*\n", "", "arm behind the `ga` feature dropped"))}
+            for f in ["present_indices", "reverse", "rotate", "drop", "take"]
         ]},
     ],
 }
